@@ -360,6 +360,9 @@ func (n *normalizer) call(x *ast.CallExpr) {
 			return
 		}
 	}
+	if n.exprHelper(x) {
+		return
+	}
 	if !n.helperBody(x) {
 		n.expr(x.Fun)
 	}
@@ -647,6 +650,86 @@ func (n *normalizer) helperBody(x *ast.CallExpr) bool {
 	n.emit("helper{")
 	n.emit(body...)
 	n.emit("}")
+	return true
+}
+
+// exprHelper: a call of an unexported package-level function of the repository whose body is a single `return E` is
+// rendered as E with the parameters replaced by the (rendered) arguments - a private constructor such as
+// `newSetOf(m) = &Set{inner: Inner(m)}` then reads exactly like the literal written out at the call site. Only when
+// every parameter occurs at most once in E (no duplicated or dropped evaluation).
+func (n *normalizer) exprHelper(x *ast.CallExpr) bool {
+	if PtrWrapperDecl == nil || helperDepth >= 2 {
+		return false
+	}
+	fun := x.Fun
+	for {
+		switch f := fun.(type) {
+		case *ast.IndexExpr:
+			fun = f.X
+			continue
+		case *ast.IndexListExpr:
+			fun = f.X
+			continue
+		case *ast.ParenExpr:
+			fun = f.X
+			continue
+		}
+		break
+	}
+	id, ok := fun.(*ast.Ident)
+	if !ok {
+		return false
+	}
+	fo, ok := n.info.ObjectOf(id).(*types.Func)
+	if !ok || fo.Exported() {
+		return false
+	}
+	sig, okS := fo.Type().(*types.Signature)
+	if !okS || sig.Recv() != nil || sig.Variadic() {
+		return false
+	}
+	fd, fi := PtrWrapperDecl(fo)
+	if fd == nil || fd.Body == nil || len(fd.Body.List) != 1 {
+		return false
+	}
+	ret, isRet := fd.Body.List[0].(*ast.ReturnStmt)
+	if !isRet || len(ret.Results) != 1 {
+		return false
+	}
+	var params []types.Object
+	for _, f := range fd.Type.Params.List {
+		for _, nm := range f.Names {
+			params = append(params, fi.ObjectOf(nm))
+		}
+	}
+	if len(params) != len(x.Args) {
+		return false
+	}
+	uses := map[types.Object]int{}
+	ast.Inspect(ret.Results[0], func(nd ast.Node) bool {
+		if idn, isI := nd.(*ast.Ident); isI {
+			if o := fi.ObjectOf(idn); o != nil {
+				uses[o]++
+			}
+		}
+		return true
+	})
+	for _, prm := range params {
+		if uses[prm] != 1 {
+			return false
+		}
+	}
+	sub := &normalizer{info: fi, names: map[types.Object]string{}, Fresh: n.Fresh, inline: map[types.Object][]string{}}
+	for i, prm := range params {
+		mark := len(n.out)
+		n.expr(x.Args[i])
+		sub.inline[prm] = append([]string{}, n.out[mark:]...)
+		n.out = n.out[:mark]
+	}
+	helperDepth++
+	sub.expr(ret.Results[0])
+	helperDepth--
+	n.emit(sub.out...)
 	return true
 }
 
